@@ -143,6 +143,10 @@ func c19One(c *Ctx, b *Batch, pkg string, cs respCase, respType string, schema *
 	d.UseNumber()
 	d.Decode(&tree)
 	decls := parseGoDecls(b.Pkgs[pkg].Src)
+	noStructOpt := true
+	for _, t := range cs.Ops {
+		noStructOpt = noStructOpt && !strings.Contains(t, "struct")
+	}
 	c19ObjTypes = nil
 	for name, d := range schema.Types {
 		if d.Kind == ast.Object && !strings.HasPrefix(name, "__") {
@@ -207,7 +211,7 @@ func c19One(c *Ctx, b *Batch, pkg string, cs respCase, respType string, schema *
 			if op.Operation == ast.Mutation {
 				root = schema.Mutation
 			}
-			w := &faithWalker{ex: ex, schema: schema, decls: decls, typesOnly: true}
+			w := &faithWalker{ex: ex, schema: schema, decls: decls, typesOnly: true, noStructOpt: noStructOpt}
 			func() {
 				defer func() { recover() }() // the walk follows a deliberately malformed input
 				w.object(root, op.SelectionSet, inObj, dump, cs.Op)
@@ -263,7 +267,7 @@ func c19One(c *Ctx, b *Batch, pkg string, cs respCase, respType string, schema *
 					continue
 				}
 				dump, _ := res["dump"].(map[string]any)
-				w := &faithWalker{ex: ex, schema: schema, decls: decls, typesOnly: true}
+				w := &faithWalker{ex: ex, schema: schema, decls: decls, typesOnly: true, noStructOpt: noStructOpt}
 				func() {
 					defer func() { recover() }()
 					w.object(root, op.SelectionSet, mv.(map[string]any), dump, cs.Op)
